@@ -17,7 +17,8 @@ RULE = ("every node of every bundled schema (and of generated schemas made by ed
 ASSUMPTIONS = ["oracle hedmon/oracle/schema_xml.py reads the bundled XML with xml.etree only",
                "extension words (Zzqext, Qqmore) are not schema terms in any bundled schema"]
 MIN_MONITOR_EVALS = {"same-node": 5000, "forms": 5000, "suffix-verbatim": 2000, "inverse-idempotent": 5000,
-                     "bulk-convert": 1000, "generated-schema-node": 500}
+                     "bulk-convert": 1000, "generated-schema-node": 500, "entry-of-this-schema": 5000,
+                     "interleaved-versions": 500}
 WATCHDOG_S = {"quick": 900, "thorough": 3600}
 VALUES = ["/3", "/3 s", "/Abc-1", "/XyZ 1", "/#", "/7.5 mV"]
 EXTS = ["/Zzqext", "/Zzqext/Qqmore", "/ZZqExt"]
@@ -31,6 +32,9 @@ def shards(tier, seed):
             for part in range(4):
                 out.append(dict(kind="bundled", version=v, ns=ns, part=part, parts=4,
                                 cases=4 if tier == "thorough" else 2))
+    for a, b in [("8.2.0", "8.3.0"), ("8.0.0", "8.3.0"), ("score_1.1.0", "score_2.0.0"), ("testlib_2.0.0", "testlib_3.0.0")]:
+        for part in range(4 if tier == "thorough" else 1):
+            out.append(dict(kind="interleaved", version=a, other=b, part=part, parts=4 if tier == "thorough" else 8))
     n_gen = 300 if tier == "thorough" else 6
     for i in range(n_gen):
         out.append(dict(kind="generated", base=["8.3.0", "8.2.0", "score_2.0.0", "testlib_3.0.0"][i % 4], index=i))
@@ -78,6 +82,9 @@ def check_node(schema, ns, node, rng, ncases, rec, label, entries, bulk):
                 first = entries.setdefault(ekey, e)
                 if first is not e:
                     rec.violation("two spellings of one node resolve to different schema entries", case)
+                rec.mon("entry-of-this-schema")
+                if schema.tags.get(e.name) is not e:
+                    rec.violation("resolved entry is not an entry of the schema the tag was resolved with", case)
                 if e.long_tag_name != node.path or e.short_tag_name != node.name:
                     rec.violation("resolved entry is not the node the XML oracle names", case)
                     continue
@@ -196,6 +203,19 @@ def run_shard(shard, rec):
             check_node(schema, ns, node, rng, shard["cases"], rec, ns + v, entries, bulk)
         check_bulk(schema, bulk[:400], rec, ns + v)
         rec.count("schema", ns + v, len(nodes))
+    elif shard["kind"] == "interleaved":
+        # history across schema objects: the same spellings resolved alternately under two loaded versions
+        va, vb = shard["version"], shard["other"]
+        rng.seed(f"c03-il-{va}-{vb}-{shard['part']}-{rng.random()}")
+        pair = [(v, schema_xml.load(v), env.schema(v), {}) for v in (va, vb)]
+        names = sorted(set(pair[0][1].by_short) & set(pair[1][1].by_short))[shard["part"]::shard["parts"]]
+        for nm in names:
+            state = rng.getstate()
+            for v, oracle, schema, entries in pair + pair:
+                rng.setstate(state)                      # identical spellings and suffixes under both versions
+                rec.mon("interleaved-versions")
+                check_node(schema, "", oracle.by_short[nm], rng, 2, rec, v, entries, [])
+        rec.count("schema", f"{va}<->{vb}", len(names))
     else:
         from hed.schema import from_string
         text, added = generate_schema_text(shard["base"], shard["index"])
